@@ -6,12 +6,12 @@
    (1) every consumer shape that the audited classification calls order-safe takes equal values on
        permutations of the entries (for all entry lists with distinct keys, all per-entry functions);
    (2) the shapes it calls unsafe do not (so [order_safe] is exact);
-   (3) every iteration site that gen/hashiter.py finds in the current source is classified, and is
-       order-safe unless it belongs to a recorded defect class (vm_compute over Gen.HashIter.sites).
+   (3) every iteration site that gen/hashiter.py finds in the current source is classified and order-safe
+       (vm_compute over Gen.HashIter.sites; a new or edited site is Unclassified and breaks it).
    What is not proved (see checks/c19.meta.json): that the scanner finds every site, that the audited
    classification describes the code (pinned by digests, exercised by repeated launches), hash seeding,
-   the OS, dependencies.  The full claim is [all_sites_classified_full]; the check evaluates its
-   decidable form ([C19_full_iff_no_unsafe_site]) on every run and reports the offending sites. *)
+   the OS, dependencies.  When (3) breaks, the check evaluates its decidable form
+   ([C19_full_iff_no_unsafe_site]), lists the offending sites and searches for two differing launches. *)
 From Coq Require Import String List ZArith Bool Permutation.
 From TV Require Import Model.Order Model.OrderSites Proofs.OrderPerm Proofs.OrderSitesOk Gen.HashIter.
 Import ListNotations.
@@ -73,26 +73,29 @@ Theorem C19_order_safe_is_exact : forall sh, order_safe sh = false ->
                  /\ ~ obs_eq (consumer p sh l) (consumer p sh l').
 Proof. exact unsafe_shapes_refuted. Qed.
 
-(* (3) the side condition over the sites of the current source, under the exact guard that excludes the
-       recorded defect classes *)
-Theorem C19_all_sites_classified_partial : forall s, In s sites ->
+(* (3) the side condition over the sites of the current source: every site is classified and order-safe.
+       (On the pinned tree five sites were not -- see known_findings.d/C19.json; they are repaired.  Should a site be
+       recorded as an open finding again, its tag goes into Model/OrderSites.v [open_defect_tags], this theorem becomes
+       the Definition C19_full and [C19_all_sites_classified_guarded] carries the claim.) *)
+Definition C19_full : Prop := all_sites_classified_full.
+
+Theorem C19_all_sites_classified : forall s, In s sites ->
+  classification s <> Unclassified /\ order_safe (classification s) = true.
+Proof. exact all_sites_classified. Qed.
+
+Theorem C19_sites_deterministic : forall s, In s sites ->
+  forall p l l', step_commutes p -> NoDup (map fst l) -> NoDup (map (span p) l) -> Permutation l l' ->
+  obs_eq (consumer p (classification s) l) (consumer p (classification s) l').
+Proof. exact sites_deterministic. Qed.
+
+(* the same under the guard that excludes recorded open findings (none at present) *)
+Theorem C19_all_sites_classified_guarded : forall s, In s sites ->
   classification s <> Unclassified /\ (order_safe (classification s) = true \/ In (tag_of s) open_defect_tags).
 Proof. exact all_sites_classified_partial. Qed.
 
-Theorem C19_sites_deterministic_partial : forall s, In s sites -> ~ In (tag_of s) open_defect_tags ->
-  forall p l l', step_commutes p -> NoDup (map fst l) -> NoDup (map (span p) l) -> Permutation l l' ->
-  obs_eq (consumer p (classification s) l) (consumer p (classification s) l').
-Proof. exact sites_deterministic_partial. Qed.
-
-Definition C19_full : Prop := all_sites_classified_full.
-
+(* the decidable form that the check evaluates to list offending sites when the side condition breaks *)
 Theorem C19_full_iff_no_unsafe_site : C19_full <-> unsafe_sites sites = [].
 Proof. exact full_iff_no_unsafe_site. Qed.
-
-Theorem C19_unsafe_sites_refuted : forall s, In s (unsafe_sites sites) ->
-  exists p l l', step_commutes p /\ NoDup (map fst l) /\ NoDup (map (span p) l) /\ Permutation l l'
-                 /\ ~ obs_eq (consumer p (classification s) l) (consumer p (classification s) l').
-Proof. exact unsafe_sites_refuted. Qed.
 
 (* non-vacuity: the hypotheses are satisfiable by non-trivial instances, and the consumers compute *)
 (* (ex_params, ex_l, ex_l' are defined in Proofs/OrderSitesOk.v: four entries, keys 3 9 7 1, and a rotation of them) *)
@@ -117,11 +120,13 @@ Proof. exact ex_values. Qed.
 (* the inventory is not empty and the audited table really classifies hash iterations (not only name clashes) *)
 Example C19_ex_inventory : (5 <=? Z.of_nat (length sites)) = true
   /\ existsb (fun s => shape_eqb (classification s) CollectHash) sites = true
-  /\ existsb (fun s => shape_eqb (classification s) AnyAll) sites = true.
+  /\ existsb (fun s => shape_eqb (classification s) AnyAll) sites = true
+  /\ existsb (fun s => shape_eqb (classification s) CollectThenSort) sites = true
+  /\ existsb (fun s => shape_eqb (classification s) MinByTotalKey) sites = true.
 Proof. exact ex_inventory. Qed.
 
 Print Assumptions C19_consumer_perm_invariant.
 Print Assumptions C19_order_safe_is_exact.
-Print Assumptions C19_all_sites_classified_partial.
-Print Assumptions C19_sites_deterministic_partial.
+Print Assumptions C19_all_sites_classified.
+Print Assumptions C19_sites_deterministic.
 Print Assumptions C19_full_iff_no_unsafe_site.
